@@ -222,28 +222,50 @@ fn step_script(ctx: Context, obs: &mut Obs, op: &Op) -> Result<(Context, String)
     Ok((ctx, s))
 }
 
-fn run_history(mode: &str, ops: &[Op]) -> String {
-    let mut ctx = sdk_context();
-    let mut obs = Obs { handles: vec![] };
+fn run_steps(mode: &str, mut ctx: Context, obs: &mut Obs, ops: &[Op], fork_at: Option<usize>) -> (Vec<String>, Option<(Context, Obs)>) {
     let mut steps = vec![];
-    for op in ops {
+    let mut twin = None;
+    for (k, op) in ops.iter().enumerate() {
+        if fork_at == Some(k) {
+            // the embedder keeps a copy of the Context (Context: Clone) and goes on with both
+            twin = Some((ctx.clone(), Obs { handles: obs.handles.clone() }));
+        }
         let r = if mode == "S" {
-            match step_script(ctx, &mut obs, op) {
+            match step_script(ctx, obs, op) {
                 Ok((c, s)) => {
                     ctx = c;
                     s
                 }
                 Err(s) => {
                     steps.push(format!("{}@lost@lost", s));
-                    return format!("ok {}", steps.join(";")).trim_end().to_string();
+                    return (steps, twin);
                 }
             }
         } else {
-            step_direct(&mut ctx, &mut obs, op)
+            step_direct(&mut ctx, obs, op)
         };
         steps.push(format!("{}@{}@{}", r, obs.vars(&ctx), depth(&ctx)));
     }
-    format!("ok {}", steps.join(";")).trim_end().to_string()
+    (steps, twin)
+}
+
+fn run_history(mode: &str, ops: &[Op]) -> String {
+    let mut obs = Obs { handles: vec![] };
+    // every history is also run with a COPY of the Context taken at some step: the copy then
+    // executes the same remaining operations and must answer exactly like the original (values
+    // inside Context.state are shared through Rc by `clone`: an operation that mutates a shared
+    // value in place through one copy would be seen by the other)
+    let fork_at = if ops.len() >= 2 { Some(crate::hash_str(&mk(mode, ops)) as usize % ops.len()) } else { None };
+    let (steps, twin) = run_steps(mode, sdk_context(), &mut obs, ops, fork_at);
+    let mut line = format!("ok {}", steps.join(";")).trim_end().to_string();
+    if let (Some(k), Some((tctx, mut tobs))) = (fork_at, twin) {
+        let (tsteps, _) = run_steps(mode, tctx, &mut tobs, &ops[k..], None);
+        if tsteps[..] != steps[k..] {
+            let at = tsteps.iter().zip(steps[k..].iter()).position(|(a, b)| a != b).unwrap_or(tsteps.len().min(steps.len() - k));
+            line.push_str(&format!(" COPY-OF-CONTEXT-DIFFERS-AT-STEP-{}", k + at));
+        }
+    }
+    line
 }
 
 
